@@ -33,7 +33,7 @@ out = {}
 path = os.path.join(SEEDS, "MATRIX.json")
 if os.path.exists(path) and sys.argv[1:]:
     out = json.load(open(path))
-with ThreadPoolExecutor(8) as ex:
+with ThreadPoolExecutor(12) as ex:
     for sid, res in ex.map(one, ids):
         out[sid] = res
         if "error" in res:
